@@ -1,8 +1,11 @@
 /-
 C11 — a table-conflict error pinpoints a real conflict in the real automaton.
-(first layer: the `set_action` lemma; the scan lemmas are added in Proofs/Table)
+`C11_payload`: for every grammar and every automaton handed to `machine_to_table`, a conflict report names
+a state of that automaton, two items of that state, and the two items demand different parser actions on the
+same lookahead column (terminal or end of input).
 -/
 import KikiVerif.Model.Table
+import KikiVerif.Proofs.Table
 
 namespace KikiVerif.C11
 open KikiVerif.Table KikiVerif.Machine KikiVerif.LR
@@ -22,6 +25,16 @@ theorem C11_setAction_conflict (tb : TB) (state col : Nat) (it : Item) (a : Acti
       exact ⟨rfl, rfl, ea, hl, hne⟩
   · cases h
 
+/-- **C11 (first half)**: the reported state index is a state of the automaton, both reported items belong to
+that state, and they demand (`Table.demand`: shift on the terminal after the dot / reduce on the item's
+lookahead / accept on end of input) different actions on the same lookahead column -/
+theorem C11_payload (c : Ctx) (m : Machine) (s : Nat) (e n : Item)
+    (h : machineToTable c m = .conflict s e n) :
+    (∃ st, m.states[s]? = some st ∧ e ∈ st ∧ n ∈ st) ∧
+    ∃ col ae an, demand c m s e = some (col, ae) ∧ demand c m s n = some (col, an) ∧ ae ≠ an :=
+  conflict_genuine c m s e n h
+
 end KikiVerif.C11
 
 #print axioms KikiVerif.C11.C11_setAction_conflict
+#print axioms KikiVerif.C11.C11_payload
